@@ -37,15 +37,15 @@ pub(crate) fn strings_parser(
     let mut strings: Vec<String> = vec![];
 
     for offset in strings_offset {
-        let string_offset = base_offset + *offset as u64;
+        let string_offset = base_offset.wrapping_add(*offset as u64);
 
         let mut string = String::new();
 
         reader.seek(SeekFrom::Start(string_offset))?;
-        let mut next_char = reader.read_le::<u8>().unwrap() as char;
+        let mut next_char = reader.read_le::<u8>()? as char;
         while next_char != '\0' {
             string.push(next_char);
-            next_char = reader.read_le::<u8>().unwrap() as char;
+            next_char = reader.read_le::<u8>()? as char;
         }
 
         strings.push(string);
@@ -64,10 +64,10 @@ pub(crate) fn string_from_offset(start: u64) -> BinResult<String> {
 
     reader.seek(SeekFrom::Start(start + offset as u64))?;
     reader.seek(SeekFrom::Start(start))?;
-    let mut next_char = reader.read_le::<u8>().unwrap() as char;
+    let mut next_char = reader.read_le::<u8>()? as char;
     while next_char != '\0' {
         string.push(next_char);
-        next_char = reader.read_le::<u8>().unwrap() as char;
+        next_char = reader.read_le::<u8>()? as char;
     }
     reader.seek(SeekFrom::Start(old_pos))?;
     Ok(string)
